@@ -335,6 +335,51 @@ func checkC10(rc *Run) error {
 	}
 	close(jobs)
 	wg.Wait()
+	// the first clause on the other input formats: files f1 f2 f3 of one format yield, in order, what each yields alone
+	type fmtFiles struct {
+		format, ext string
+		texts       []string
+	}
+	for _, ff := range []fmtFiles{
+		{"json", "json", []string{"{\"a\": 1}\n", "{\"b\": [2]}\n", "3\n"}},
+		{"csv", "csv", []string{"a,b\n1,2\n", "c\nx\n", "a,b\n3,4\n"}},
+		{"tsv", "tsv", []string{"a\tb\n1\t2\n", "c\nx\n", "a\tb\n3\t4\n"}},
+		{"props", "properties", []string{"a = 1\n", "b.c = two\n", "d = 3\n"}},
+		{"xml", "xml", []string{"<a>1</a>\n", "<b><c>2</c></b>\n", "<d/>\n"}},
+		{"toml", "toml", []string{"a = 1\n", "[b]\nc = 2\n", "d = [3]\n"}},
+		{"lua", "lua", []string{"return {a = 1}\n", "return {b = {2}}\n", "return {d = \"3\"}\n"}},
+	} {
+		fdir := filepath.Join(rc.Out, "formats", ff.format)
+		os.MkdirAll(fdir, 0o755)
+		var names []string
+		var alone []string
+		for i, t := range ff.texts {
+			n := fmt.Sprintf("f%d.%s", i, ff.ext)
+			os.WriteFile(filepath.Join(fdir, n), []byte(t), 0o644)
+			names = append(names, n)
+			out, code, err := runYq(fdir, "-p="+ff.format, "-o=json", "-I0", ".", n)
+			if err != nil || code != 0 {
+				return machinery("yq cannot read the %s sample %q alone", ff.format, t)
+			}
+			alone = append(alone, strings.TrimSpace(out))
+		}
+		for _, sub := range []string{"", "ea"} {
+			args := []string{}
+			if sub != "" {
+				args = append(args, sub)
+			}
+			args = append(append(args, "-p="+ff.format, "-o=json", "-I0", "."), names...)
+			out, code, err := runYq(fdir, args...)
+			if err != nil {
+				continue
+			}
+			got := strings.Fields(strings.ReplaceAll(out, "---", ""))
+			if code != 0 || strings.Join(got, " ") != strings.Join(alone, " ") {
+				rc.Report("files-of-format:"+ff.format+":"+sub, fmt.Sprintf("yq %s prints %q (exit %d); each file alone gives %q", strings.Join(args, " "), out, code, alone),
+					M{"machine": "Stream", "concrete": M{"argv": append([]string{"yq"}, args...), "files": ff.texts}})
+			}
+		}
+	}
 	rc.Set("states", res.Distinct)
 	rc.Set("transitions", res.Generated)
 	rc.Set("traces_validated_against_impl", compared)
